@@ -40,7 +40,8 @@ CONFIG = {
                             'c18.errors': 500},
                   'thorough': {'c18.lambda': 200000}},
     'must_sig': ['print:two_branch_child', 'print:constant',
-                 'lambda:unused_argument', 'err:missing_variable',
+                 'lambda:unused_argument', 'err:missing_variable', 'chain:3',
+                 'chain:4', 'chain:5',
                  'err:syntax'],
     'rule': ('cases = (expression text, argument order); enumerated: all '
              'expressions of operator depth <=2 over {a,b,c,0,1} with & | ~ '
@@ -215,6 +216,59 @@ def drive(t, order, i):
                     'printed': sobdd})
 
 
+def chains(ctx, r, n):
+    """Flat n-ary chains: Python folds `a and b and c` into ONE BoolOp with
+    three operands, a shape the parenthesised generator never produces."""
+    from pyModelChecking.BDD import OBDD
+    vs = ['a', 'b', 'c', 'd']
+    for k in range(n):
+        m = r.randint(3, 5)
+        ops = []
+        for _ in range(m):
+            v = r.choice(vs)
+            x = r.random()
+            if x < 0.25:
+                ops.append(('not ' + v, '~' + v))
+            elif x < 0.4:
+                w = r.choice(vs)
+                ops.append(('(%s or not %s)' % (v, w), '(%s | ~%s)' % (v, w)))
+            else:
+                ops.append((v, v))
+        kw = r.choice(['and', 'or'])
+        sym = '&' if kw == 'and' else '|'
+        spelled = (' %s ' % kw).join(o[0] for o in ops)
+        symbolic = (' %s ' % sym).join('(%s)' % o[1] for o in ops)
+        if not ctx.mine(k):
+            continue
+        order = list(vs)
+        r2 = gen.rng(ctx.seed, PROP, ('chain', k))
+        r2.shuffle(order)
+        LOG.sig['chain:%d' % m] += 1
+        case = {'expr': symbolic, 'order': order, 'spelled': spelled}
+        try:
+            o = OBDD(symbolic, list(order))
+            o2 = OBDD(spelled, list(order))
+            check_equal('c18.synonyms', case, o2, o, order,
+                        'n-ary and/or chain == & | chain')
+            tt = refbool.tt_of_expr(symbolic, order)
+            LOG.hit('c18.synonyms')
+            if refbool.tt_of_node(o2.root, order) != tt:
+                LOG.violation('c18.synonyms', PROP, case, str(o2),
+                              'the function of the chain',
+                              note='n-ary chain denotes another function')
+            ol = OBDD('lambda %s: %s' % (','.join(order), spelled))
+            check_equal('c18.lambda', dict(case, lam='lambda form of chain'),
+                        ol, o, order, 'lambda form == expression form')
+            LOG.mark_nontrivial((spelled, tuple(order)))
+        except mon.PostBroken:
+            raise
+        except Exception as ex:
+            LOG.hit('c18.synonyms')
+            LOG.violation('c18.synonyms', PROP, case,
+                          'raised ' + mon.fmt_exc(ex), 'an OBDD',
+                          note='n-ary chain rejected')
+
+
 BAD_SYNTAX = ['a + b', 'a < b', 'f(a)', '2', 'a if b else c', 'a == b',
               'a - b', '[a]', 'a.b', 'a * b', '-a', 'a @ b', '"a"', 'a[0]',
               'a >> b', '3 & a', 'lambda: a', 'None', 'a, b', '{a}',
@@ -286,6 +340,8 @@ def run(ctx):
         r.shuffle(order)
         if ctx.mine(k):
             drive(t, order, k)
+    chains(ctx, gen.rng(ctx.seed, PROP, 'chains'), 1600 if ctx.quick
+           else 30000)
     error_cases(0)
 
 
@@ -312,4 +368,6 @@ def replay(ctx, rep):
         o3 = OBDD(str(o))
         check_equal('c18.print_obdd', c, o3, o, order, 'print obdd')
     else:
-        error_cases(0)
+        chains(ctx, gen.rng(ctx.seed, PROP, 'chains'), 1600 if ctx.quick
+           else 30000)
+    error_cases(0)
